@@ -233,7 +233,8 @@ class C09(common.Prop):
                  2: 'the bond orders of a completed atom do not add up to the smallest fitting valence',
                  3: 'a hydrogen is not bonded to exactly one atom by a single bond',
                  4: 'a completed hydrogen does not carry its anchor\'s fragid / fragname / weight',
-                 5: 'an explicitly written hydrogen was lost'}
+                 5: 'an explicitly written hydrogen was lost',
+                 6: 'an explicitly written hydrogen did not keep its own fragid / fragname / weight'}
 
     def corpus(self, ctx):
         out = [{'kind': 'resolve', 'cls': 'corpus', 's': s, 'legacy': True} for s in
